@@ -126,6 +126,11 @@ def mk_rich(cx, tag, kind):
         o, _ = lib.mk_obs(cx, tag, {'e|r1': [2, 4, 6, 8, 10, 12]})
     elif kind == 'irregular':
         o, _ = lib.mk_obs(cx, tag, {'e|r1': [1, 2, 4, 5, 7, 8]})
+    elif kind == 'rangelike':
+        # irregular lists that share length, end points and first stride with a range
+        o, _ = lib.mk_obs(cx, tag, {'e|r1': [1, 3, 4, 7, 9], 'e|r2': [2, 4, 5, 6, 10, 12]})
+    elif kind == 'rangelike2':
+        o, _ = lib.mk_obs(cx, tag, {'e|r1': [1, 3, 6, 7, 9], 'e|r2': [10, 20, 30, 35, 50]})
     elif kind == 'replicas':
         o, _ = lib.mk_obs(cx, tag, {'e|r1': [1, 2, 3, 4, 5], 'e|r2': [2, 4, 5, 7, 8]})
     elif kind == 'sep':
@@ -366,6 +371,7 @@ def jobs(tier, seed):
     def add(h, **p):
         J.append(dict(harness=h, params=p))
     add('obs', kinds=['range', 'strided', 'irregular'], tags=[None, 'text', 5])
+    add('obs', kinds=['rangelike', 'rangelike2'], tags=[None, None])
     add('obs', kinds=['replicas', 'sep', 'reweighted'], tags=[[1, 'a'], {'k': 1.5}, True])
     add('obs', kinds=['multi', 'cov', 'covmix'], tags=['m', None, 2.5])
     for w in ('list', 'list-cov', 'array', 'array3', 'corr', 'corr-none-tag', 'corr-matrix-none', 'corr-pad-prange-tag', 'corr-matrix-prange'):
